@@ -158,7 +158,7 @@ PROPS["C12"]["harness"] = "harness.combo:C12"
 PROPS["C12"]["explanation"] += " http level: native harness drives http.Server over a fake socket in virtual tyme (silent, partial request then silent, bursts, steady traffic)."
 
 PROPS["C13"] = dict(
-    contracts=["contracts.http_parse", "contracts.c13_body", "contracts.c13_leader", "contracts.c13_head_client"], harness="harness.http_native:C13", level="other", trusted_base=HTTP_EXT,
+    contracts=["contracts.http_parse", "contracts.c13_body", "contracts.c13_leader", "contracts.c13_head_client", "contracts.c17_chunk"], harness="harness.http_native:C13", level="other", trusted_base=HTTP_EXT,
     assumptions=["L-FRAG (lemmas/LFrag.lean): idle-stutter + prefix-stability of every step imply independence of any fragmentation; machine-checked over abstract steps",
                  "parseLeader/parseChunk/parseHead/parseBody steps are not under pyvc contract yet (no coroutine support for next(sub-generator) in the engine): bounded natively"],
     explanation="PROVED as generators under contract with the environment appending arbitrary bytes (and possibly closing the connection) at every wait: httping.parseLeader, one ARBITRARY turn of its line loop after any history of waits (a wait never consumes; a line is found from position 0 of the whole buffer, so a terminator straddling two reads is found; exactly line + terminator consumed; header stored as name / stripped value; empty line yields the headers; only HTTPException subclasses) -- contracts/c13_leader.py; the client-side Respondent.parseHead (fresh header mapping holding exactly the FINAL response's header block after any number of 100-continue responses; status, version, chunked, length rules incl. 204/304/1xx/HEAD; redirectant exactly for 300/301/302/303/307 with a Location; the event source of an event-stream response reads THIS response's body whatever an earlier response left behind -- contracts/c13_head_client.py); Requestant.parseBody and the client-side Respondent.parseBody (plus its read-until-close mode: body = everything received in order until the server closes): a length-delimited body is exactly the next L bytes of the stream, exactly those consumed, PrematureClosure only when closed short; a chunked body is the data chunks in order for any number of chunks; neither -> HTTPException -- contracts/c13_body.py. parseLine (the leaf of every HTTP parser) PROVED per step for symbolic buffers: a step that waits leaves the buffer untouched (idle-stutter); a step that yields a line "
